@@ -251,6 +251,49 @@ def install_purity_monitor():
     wrap(fr.AdornedRetort, "load")
     wrap(fr.AdornedRetort, "dump")
 
+    # most tests obtain the callable first (get_loader / get_dumper / converters): the same snapshot around every call of it;
+    # one wrapper per produced callable, so that `retort.get_loader(tp) is retort.get_loader(tp)` keeps holding
+    wrappers = {}
+
+    def guard(fn, what):
+        key = id(fn)
+        if key in wrappers and wrappers[key][0] is fn:
+            return wrappers[key][1]
+
+        def guarded(data, *args, **kwargs):
+            try:
+                before = freeze(data)
+            except Exception:  # noqa: BLE001
+                COUNTERS["purity_unfreezable"] += 1
+                return fn(data, *args, **kwargs)
+            try:
+                return fn(data, *args, **kwargs)
+            finally:
+                COUNTERS[f"purity_{what}_calls"] += 1
+                try:
+                    after = freeze(data)
+                    changed = after != before
+                except Exception:  # noqa: BLE001
+                    changed = False
+                fp("pure", what, repr(before)[:300])
+                if changed:
+                    violation(f"argument-mutated:{what}:{type(data).__name__}", f"{what} changed its argument: before {before!r:.300} after {after!r:.300}")
+        for attr in ("__name__", "__qualname__", "__doc__", "__module__", "__wrapped__"):
+            try:
+                setattr(guarded, attr, getattr(fn, attr))
+            except AttributeError:
+                pass
+        wrappers[key] = (fn, guarded)
+        return guarded
+
+    for name, what in (("get_loader", "obtained_loader"), ("get_dumper", "obtained_dumper")):
+        orig_get = getattr(fr.AdornedRetort, name)
+
+        def getter(self, tp, _orig=orig_get, _what=what):
+            return guard(_orig(self, tp), _what)
+        getter.__name__ = name
+        setattr(fr.AdornedRetort, name, getter)
+
 
 MONITORS = {
     "C08": [install_literal_monitor], "C13": [install_literal_monitor], "C09": [install_router_monitor], "C15": [install_normalize_monitor],
